@@ -25,17 +25,17 @@ IP = [
       bounds="every byte string of length 0..=56 whose version nibble is not 4 (<= 2 complete extension headers)",
       encodes=["LaxIpSlice::from_slice", "LaxIpv6Slice::from_slice", "Ipv6ExtensionsSlice::from_slice_lax"]),
     # struct doors: one IpHeaders-returning door per harness (3-14 GB each), compared with the slice door
-    H("c06_ip4_hdr_strict", "c06", tier="thorough", unwind=1, timeout=2400,
+    H("c06_ip4_hdr_strict", "c06", tier="quick", seed_group="ipheaders-doors", unwind=1, timeout=2400,
       bounds="every byte string of length 0..=44; header values, option and ICV bytes, payload range, errors",
       encodes=["IpHeaders::from_ipv4_slice", "Ipv4Slice::from_slice"]),
-    H("c06_ip4_hdr_lax", "c06", tier="thorough", unwind=1, timeout=2400,
+    H("c06_ip4_hdr_lax", "c06", tier="quick", seed_group="ipheaders-doors", unwind=1, timeout=2400,
       bounds="every byte string of length 0..=44; header values, option and ICV bytes, payload, incomplete, stop error",
       encodes=["IpHeaders::from_ipv4_slice_lax", "LaxIpv4Slice::from_slice"]),
-    H("c06_ip6_hdr_strict", "c06", tier="thorough", unwind=1, timeout=2400,
+    H("c06_ip6_hdr_strict", "c06", tier="quick", seed_group="ipheaders-doors", unwind=1, timeout=2400,
       bounds="every byte string of length 0..=47: no complete extension header fits (extension faults are length faults "
              "of the first extension header); base header values, payload range, len_source, errors",
       encodes=["IpHeaders::from_ipv6_slice", "Ipv6Slice::from_slice", "Ipv6Extensions::from_slice (first pass)"]),
-    H("c06_ip6_hdr_lax", "c06", tier="thorough", unwind=1, timeout=2400,
+    H("c06_ip6_hdr_lax", "c06", tier="quick", seed_group="ipheaders-doors", unwind=1, timeout=2400,
       bounds="every byte string of length 0..=47: no complete extension header fits",
       encodes=["IpHeaders::from_ipv6_slice_lax", "LaxIpv6Slice::from_slice", "Ipv6Extensions::from_slice_lax (first pass)"]),
     H("c06_ip_hdr_lax_dispatch", "c06", tier="thorough", unwind=1, timeout=2400,
